@@ -351,11 +351,11 @@ def cache_extra(p, rng):
 
 class C05(Check):
     id = "C05"
-    modules = ["EG.Props.C05", "EG.Props.C05Trav"]
+    modules = ["EG.Props.C05", "EG.Props.C05Trav", "EG.Props.C05Copy"]
     assumptions = QueryBase.assumptions + [
         "a filter on a vertex ATTRIBUTE that later changes is outside 'graph mutations'",
-        "fresh-interpreter loading is exercised by the correspondence (subprocess), not modelled: "
-        "un-pickling restores exactly the pickled attribute dictionaries (trusted: pickle/dill)"]
+        "fresh-interpreter loading is modelled as an isomorphic copy of the world (EG.Copy; theorems in C05Copy) and exercised "
+        "in a subprocess; that un-pickling restores exactly the pickled attribute dictionaries is trusted (pickle/dill) / C10's subject"]
 
     def witnesses(self):
         return [("D6", W.D6), ("D7", W.D7), ("D7b", W.D7b), ("D18", W.D18)]
